@@ -34,14 +34,14 @@ CHECKS = {
     "C10": dict(engine="e3-replicas + e4-cliproc", cat="exploration", ref="DESIGN.md 5.C10",
         text="Per-replica results obtained from the real pipeline through single-index delivery are compared with what the full run writes (max, prefix monotone in k, logged score = score of the written file) under varying reduction trees; the shipped binary is run over group x shape x potential x replications and its JSON labels/family/shape/copies compared with the request.",
         note="sim-rayon stub for the in-process part; the process part uses the shipped binary with RAYON_NUM_THREADS=1"),
-    "C11": dict(engine="e2-crystal", cat="exploration", ref="DESIGN.md 5.C11",
-        text="Crash/restart through the only durable state: at stage boundaries and mid-stage snapshots of real optimisation chains the state is serialised, dropped, deserialised and continued; scores, placements, re-serialisation and the continued optimisation must be bit-identical. The written SVG's <use> matrices must equal the Cartesian transforms and their 8 nearest images.",
+    "C11": dict(engine="e2-crystal + e3-replicas", cat="exploration", ref="DESIGN.md 5.C11, 12.5",
+        text="Crash/restart through the only durable state: at stage boundaries and mid-stage snapshots of real optimisation chains the state is serialised, dropped, deserialised and continued; scores, placements, re-serialisation and the continued optimisation must be bit-identical. The written SVG's <use> matrices must equal the Cartesian transforms and their 8 nearest images. A second part runs the real analyse_state under seeded schedules with pre-emption and short writes at its file operations, reads the written JSON back and requires the SVG written next to it to be byte-identical to the SVG regenerated from that JSON.",
         note="uses serde_json exactly as /repo configures it (the harness adds no serde_json features)"),
     "C18": dict(engine="e1-landscape", cat="exploration", ref="DESIGN.md 5.C18",
         text="Per-inner-loop temperature inferred from acceptance frequencies of exact-d downhill trials on staircase landscapes (pooled over seeds, Hoeffding intervals): constancy within a loop, one geometric factor, (1-kt_ratio) or the factor reaching kt_finish within one cooling step, kT=0 stays 0.",
         note="statistical: each interval holds with probability 1-1e-15; sampling configurations, not all reals"),
-    "C19": dict(engine="e1-landscape", cat="exploration", ref="DESIGN.md 5.C19",
-        text="Every proposal of hypothesis-tracked histories (rejection rates pinned to 0 %, 100 % and in between, up to 100 inner loops, ranges 1e-6..1e6) must differ from a possible pre-proposal state in <= 1 parameter by <= max_step_size*range/2.",
+    "C19": dict(engine="e1-landscape + e2-crystal", cat="exploration", ref="DESIGN.md 5.C19, 12.5",
+        text="Every proposal of hypothesis-tracked histories (rejection rates pinned to 0 %, 100 % and in between, up to 100 inner loops, ranges 1e-6..1e6) must differ from a possible pre-proposal state in <= 1 parameter by <= max_step_size*range/2; every 10th run tracks a chain of stages on a real crystal and compares each move with the declared range of the parameter it belongs to.",
         note="rounding allowance 1e-12 relative + 4 ulp"),
     "C20": dict(engine="e1-landscape + e4-cliproc", cat="fault_enumeration", ref="DESIGN.md 5.C20",
         text="Degenerate run lengths (0, 1, non-multiples, inner > steps), all landscapes and temperatures under catch_unwind: no panic, proposal count within [steps - inner, steps], convergence twin-run prefix property; the shipped binary under argument and disk faults (ENOENT, ENOTDIR, EISDIR, ENOSPC) must exit 0 with both files or non-zero with an error message, never 101.",
@@ -95,9 +95,9 @@ def main():
         },
         "engines": [
             {"name": "e1-landscape", "path": "sim/simcheck/src/e1", "serves_properties": ["C05", "C06", "C07", "C18", "C19", "C20"], "kind_free_text": "real optimiser on a scripted State (stub environment), hypothesis-tracked histories"},
-            {"name": "e2-crystal", "path": "sim/simcheck/src/e2", "serves_properties": ["C01", "C04", "C05", "C06", "C08", "C11"], "kind_free_text": "real crystal states behind a monitoring wrapper; stage chains with clamp/special-position/restart faults"},
-            {"name": "e3-replicas", "path": "sim/simrep", "serves_properties": ["C09", "C10"], "kind_free_text": "unmodified src/main.rs pipeline on a simulated rayon (shuttle threads), seeded schedules"},
-            {"name": "e4-cliproc", "path": "sim/core/src/cliproc.rs", "serves_properties": ["C10", "C20"], "kind_free_text": "shipped binary under argument and file-namespace faults"},
+            {"name": "e2-crystal", "path": "sim/simcheck/src/e2", "serves_properties": ["C01", "C04", "C05", "C06", "C08", "C11", "C19"], "kind_free_text": "real crystal states behind a monitoring wrapper; stage chains with clamp/special-position/restart faults"},
+            {"name": "e3-replicas", "path": "sim/simrep", "serves_properties": ["C09", "C10", "C11"], "kind_free_text": "unmodified src/main.rs pipeline on a simulated rayon (shuttle threads) with shuttle std::sync/thread and a pre-empting, short-writing std::fs::File; seeded schedules; one fresh process per scenario"},
+            {"name": "e4-cliproc", "path": "sim/core/src/cliproc.rs", "serves_properties": ["C09", "C10", "C20"], "kind_free_text": "shipped binary under argument and file-namespace faults (ENOENT, ENOTDIR, EISDIR, ENOSPC, stale output files), -v flags, 1..16 real rayon threads"},
         ],
         "checks": checks,
         "not_applicable": na,
